@@ -311,3 +311,364 @@ def _register_exec():
 
 
 _register_exec()
+
+
+# --------------------------------------------------------------------------------------
+# O6: the entity tree is independent of letter case and of equivalent spellings
+# (whole parser, symbolic program: every slot is a finite choice of equivalent spellings)
+# --------------------------------------------------------------------------------------
+from fv import sym as _sym, choice as _choice, parserh as _parserh  # noqa: E402
+from fv.choice import CV as _CV  # noqa: E402
+
+_CHILD_LISTS = ("modules submodules programs blockdata subroutines functions types interfaces absinterfaces enums boundprocs "
+                "finalprocs variables args common namelists modprocedures modprocs").split()
+_FIELDS = ("name vartype kind strlen intent optional parameter initial dimension points permission proctype module generic abstract "
+           "deferred extends sequence bindC attribs proto bindings uses ancestor parent_submodule vars").split()
+
+
+def _leafs(e, depth=0):
+    """nested structure of (field, value) with possibly CV leaves for entity e"""
+    out = [("cls", type(e).__name__)]
+    for f_ in _FIELDS:
+        if f_ in ("parent",):
+            continue
+        v = getattr(e, f_, None) if hasattr(e, f_) else None
+        if v is None:
+            continue
+        out.append((f_, _val(v)))
+    rv = getattr(e, "retvar", None)
+    if rv is not None and not isinstance(rv, (str, _CV)):
+        out.append(("retvar", tuple(_leafs(rv, depth + 1))))
+    elif rv is not None:
+        out.append(("retvar", rv))
+    for l in _CHILD_LISTS:
+        v = getattr(e, l, None)
+        if isinstance(v, (list, tuple)) and v and depth < 6:
+            out.append((l, tuple(tuple(_leafs(x, depth + 1)) if hasattr(x, "obj") else _val(x) for x in v)))
+    return out
+
+
+def _val(v):
+    if isinstance(v, (list, tuple)):
+        return tuple(_val(x) for x in v)
+    if hasattr(v, "obj") and hasattr(v, "name"):
+        return ("ref", getattr(v, "name"))
+    if isinstance(v, (str, int, bool, _CV)) or v is None:
+        return v
+    return repr(type(v).__name__)
+
+
+def _collect(struct, acc):
+    if isinstance(struct, _CV):
+        acc.append(struct)
+    elif isinstance(struct, (tuple, list)):
+        for x in struct:
+            _collect(x, acc)
+
+
+def _rebuild(struct, it):
+    if isinstance(struct, _CV):
+        return next(it)
+    if isinstance(struct, (tuple, list)):
+        return tuple(_rebuild(x, it) for x in struct)
+    return struct
+
+
+def _canon(x, key=None):
+    if isinstance(x, tuple):
+        if x and isinstance(x[0], tuple) and len(x[0]) == 2 and x[0][0] == "cls":
+            # an entity record: [(field, value), ...].  The attribute *set* is what is reported: the
+            # `optional` / `parameter` flags and the attribute list are one set (the flag is used when the
+            # attribute stands on the declaration, the list when it comes from an attribute statement)
+            d = {k: v for k, v in x}
+            att = [_canon(a_) for a_ in (d.get("attribs") or ())]
+            for flag in ("optional", "parameter"):
+                if d.get(flag) is True and flag not in att:
+                    att.append(flag)
+                d.pop(flag, None)
+            d["attribs"] = tuple(sorted(att))
+            return tuple((k, _canon(v) if k != "attribs" else v) for k, v in sorted(d.items()))
+        return tuple(_canon(y) for y in x)
+    if isinstance(x, str):
+        return "".join(x.lower().split())
+    return x
+
+
+def tree_signature(f):
+    """single (possibly CV) value: canonical signature of the parsed tree (names lower-cased,
+    blanks removed, attribute order ignored)"""
+    struct = tuple(_leafs(f))
+    cvs = []
+    _collect(struct, cvs)
+    return _choice.apply(lambda *vals: _canon(_rebuild(struct, iter(vals))), *cvs) if cvs else _canon(struct)
+
+
+def replay_spelling(w):
+    a = _parserh.parse_concrete(list(w["program"]))
+    b = _parserh.parse_concrete(list(w["canonical"]))
+    sa, sb = tree_signature(a), tree_signature(b)
+    diff = _first_diff(sa, sb)
+    return sa != sb, {"program": w["program"], "canonical": w["canonical"], "first_difference": diff}
+
+
+def replay_inventory(w):
+    import json as _json
+    f = _parserh.parse_concrete(list(w["program"]))
+    inv = _json.loads(_json.dumps(inventory(f)))
+    facts = _facts(w["template"], f)
+    return inv != EXPECTED[w["template"]] or bool(facts), {"ford": inv, "declared": EXPECTED[w["template"]], "facts_not_reported": facts}
+
+
+def _first_diff(a, b, path=""):
+    if type(a) is not type(b):
+        return f"{path}: {a!r} vs {b!r}"[:400]
+    if isinstance(a, tuple):
+        if len(a) != len(b):
+            return f"{path}: lengths {len(a)} vs {len(b)}: {a!r} vs {b!r}"[:600]
+        for i, (x, y) in enumerate(zip(a, b)):
+            d = _first_diff(x, y, f"{path}/{i}")
+            if d:
+                return d
+        return None
+    return None if a == b else f"{path}: {a!r} vs {b!r}"[:400]
+
+
+# each template: list of slots; a slot is a list of equivalent spellings (first = canonical)
+TEMPLATES = {
+    "procedures": [
+        ["module m"], ["contains"],
+        ["subroutine s(a, b)", "SUBROUTINE S(A, B)", "subroutine s ( a , b )", "Subroutine  s(a,b)"],
+        ["integer, intent(in) :: a", "INTEGER, INTENT(IN) :: A", "integer,intent(in)::a", "integer, intent ( in ) :: a"],
+        ["real(8), optional :: b", "real*8, optional :: b", "real(kind=8), optional :: b", "REAL ( KIND = 8 ), OPTIONAL :: B"],
+        ["end subroutine s", "end subroutine", "endsubroutine s", "END SUBROUTINE S", "end", "EndSubroutine"],
+        ["pure function f(x) result(r)", "PURE FUNCTION F(X) RESULT(R)", "pure function f ( x ) result ( r )"],
+        ["real :: x, r", "REAL :: X, R", "real x, r"],
+        ["end function f", "end function", "endfunction f", "END", "End Function F"],
+        ["end module m", "end module", "endmodule m", "END MODULE M"],
+    ],
+    "declarations": [
+        ["module m"],
+        ["integer, parameter :: n = 3", "INTEGER, PARAMETER :: N = 3", "integer,parameter::n=3"],
+        ["real(8), dimension(n), allocatable :: v", "real*8, dimension(n), allocatable :: v", "real(kind=8), allocatable, dimension(n) :: v",
+         "REAL(8), DIMENSION(N), ALLOCATABLE :: V", "real(8),dimension(n),allocatable::v"],
+        ["character(len=10) :: c", "character(10) :: c", "character*10 c", "CHARACTER(LEN=10) :: C", "character(len=10)::c",
+         "character*10 :: c"],
+        ["end module m", "end module", "END MODULE M"],
+    ],
+    "declarations-2": [
+        ["module m"],
+        ["double precision :: d", "doubleprecision :: d", "DOUBLE PRECISION :: D", "double precision d"],
+        ["type(t), pointer :: p => null()", "TYPE(T), POINTER :: P => NULL()", "type ( t ) , pointer :: p => null()"],
+        ["logical, save :: flag = .true.", "LOGICAL, SAVE :: FLAG = .TRUE.", "logical,save::flag=.true."],
+        ["complex(kind=dp) :: z", "complex(dp) :: z", "COMPLEX(KIND=DP) :: Z", "complex ( kind = dp ) :: z"],
+        ["character(len=*, kind=ck), intent(in) :: s", "character(kind=ck, len=*), intent(in) :: s", "CHARACTER(LEN=*, KIND=CK), INTENT(IN) :: S",
+         "character(*, ck), intent(in) :: s"],
+        ["end module m"],
+    ],
+    "attribute-statements": [
+        ["subroutine s(a, w, k)"],
+        # a group of lines per slot: attribute on the declaration vs. a separate attribute statement
+        [("integer, intent(in) :: a", "continue"), ("integer :: a", "intent(in) :: a"), ("INTEGER :: A", "INTENT(IN) :: A"),
+         ("integer :: a", "intent (in) a")],
+        [("real, dimension(5) :: w", "continue"), ("real :: w", "dimension w(5)"), ("real :: w", "DIMENSION W(5)"),
+         ("real :: w", "dimension :: w(5)")],
+        [("integer, allocatable :: k", "continue"), ("integer :: k", "allocatable :: k"), ("integer :: k", "ALLOCATABLE K")],
+        ["end subroutine s", "end"],
+    ],
+    "attribute-statements-2": [
+        ["module m"],
+        [("integer, parameter :: n = 3", "continue"), ("integer :: n", "parameter (n = 3)"), ("integer :: n", "PARAMETER (N = 3)")],
+        [("real, save :: q", "continue"), ("real :: q", "save :: q"), ("real :: q", "SAVE q")],
+        [("real, pointer :: p", "continue"), ("real :: p", "pointer :: p"), ("real :: p", "POINTER P")],
+        [("real, target :: t", "continue"), ("real :: t", "target :: t")],
+        ["end module m"],
+    ],
+    "attribute-statements-optional": [
+        ["subroutine s(w)"],
+        [("real, optional :: w", "continue"), ("real :: w", "optional :: w"), ("real :: w", "OPTIONAL W")],
+        ["end subroutine s"],
+    ],
+    "types": [
+        ["module m"],
+        ["type, extends(base) :: t", "TYPE, EXTENDS(BASE) :: T", "type,extends(base)::t", "type , extends ( base ) :: t"],
+        ["integer :: c = 1", "INTEGER :: C = 1", "integer::c=1"],
+        ["contains", "CONTAINS", "Contains"],
+        ["procedure :: p1 => impl1", "PROCEDURE :: P1 => IMPL1", "procedure::p1=>impl1", "procedure p1 => impl1"],
+        ["procedure, nopass :: a, b", "PROCEDURE, NOPASS :: A, B", "procedure,nopass::a,b"],
+        ["generic :: g => a, b", "GENERIC :: G => A, B", "Generic :: g => a, b", "generic::g=>a,b"],
+        ["final :: fin", "FINAL :: FIN", "final::fin"],
+        ["end type t", "end type", "endtype t", "END TYPE T"],
+        ["end module m"],
+    ],
+    "interfaces": [
+        ["module m"],
+        ["interface gen", "INTERFACE GEN", "interface  gen"],
+        ["module procedure a, b", "MODULE PROCEDURE A, B", "module procedure :: a, b", "module procedure a,b"],
+        ["end interface gen", "end interface", "endinterface gen", "END INTERFACE GEN"],
+        ["abstract interface", "ABSTRACT INTERFACE", "abstract  interface"],
+        ["function af(x)", "FUNCTION AF(X)", "function af ( x )"],
+        ["real :: x, af", "REAL :: X, AF"],
+        ["end function af", "end function", "END FUNCTION AF", "endfunction"],
+        ["end interface", "END INTERFACE", "endinterface"],
+        ["end module m"],
+    ],
+    "misc": [
+        ["subroutine s()"],
+        ["use iso_c_binding, only: c_int", "USE ISO_C_BINDING, ONLY: C_INT", "use :: iso_c_binding, only: c_int",
+         "use, intrinsic :: iso_c_binding, only : c_int", "use iso_c_binding,only:c_int"],
+        ["integer :: x, y"],
+        ["common /blk/ x, y", "COMMON /BLK/ X, Y", "common/blk/x,y", "common / blk / x, y"],
+        ["namelist /nl/ x, y", "NAMELIST /NL/ X, Y", "namelist /nl/ x,y"],
+        ["enum, bind(c)", "ENUM, BIND(C)", "enum,bind(c)", "enum , bind ( c )"],
+        ["enumerator :: e1 = 1, e2", "ENUMERATOR :: E1 = 1, E2", "enumerator e1 = 1, e2"],
+        ["end enum", "END ENUM", "endenum"],
+        ["end subroutine s"],
+    ],
+}
+
+
+def inventory(e, depth=0):
+    """names of the reported entities, by kind, recursively"""
+    out = {}
+    for l in _CHILD_LISTS:
+        v = getattr(e, l, None)
+        if isinstance(v, (list, tuple)) and v:
+            out[l] = [[str(getattr(x, "name", x)).lower(), inventory(x, depth + 1)] if hasattr(x, "obj") else str(x).lower() for x in v]
+    rv = getattr(e, "retvar", None)
+    if rv is not None:
+        out["retvar"] = str(getattr(rv, "name", rv)).lower()
+    return out
+
+
+# what each template DECLARES (written from the Fortran text of the canonical spelling, not from FORD's output)
+EXPECTED = {
+    "procedures": {"modules": [["m", {"subroutines": [["s", {"args": [["a", {}], ["b", {}]]}]],
+                                      "functions": [["f", {"args": [["x", {}]], "retvar": "r"}]]}]]},
+    "declarations": {"modules": [["m", {"variables": [["n", {}], ["v", {}], ["c", {}]]}]]},
+    "declarations-2": {"modules": [["m", {"variables": [["d", {}], ["p", {}], ["flag", {}], ["z", {}], ["s", {}]]}]]},
+    "attribute-statements": {"subroutines": [["s", {"args": [["a", {}], ["w", {}], ["k", {}]]}]]},
+    "attribute-statements-2": {"modules": [["m", {"variables": [["n", {}], ["q", {}], ["p", {}], ["t", {}]]}]]},
+    "attribute-statements-optional": {"subroutines": [["s", {"args": [["w", {}]]}]]},
+    "types": {"modules": [["m", {"types": [["t", {"boundprocs": [["p1", {}], ["b", {}], ["a", {}], ["g", {}]],
+                                                  "finalprocs": [["fin", {}]], "variables": [["c", {}]]}]]}]]},
+    "interfaces": {"modules": [["m", {"interfaces": [["gen", {"modprocs": [["a", {}], ["b", {}]]}]], "absinterfaces": [["af", {}]]}]]},
+    "misc": {"subroutines": [["s", {"enums": [["", {"variables": [["e1", {}], ["e2", {}]]}]], "variables": [["x", {}], ["y", {}]],
+                                    "common": [["blk", {"variables": ["x", "y"]}]], "namelists": [["nl", {"variables": ["x", "y"]}]]}]]},
+}
+
+
+def _facts(tname, f):
+    """a few declared facts of the canonical spelling, checked on the real parse"""
+    bad = []
+
+    def var(scope, name):
+        for v in list(getattr(scope, "variables", [])) + list(getattr(scope, "args", [])):
+            if str(getattr(v, "name", v)).lower() == name:
+                return v
+        return None
+
+    def expect(cond, what):
+        if not cond:
+            bad.append(what)
+
+    if tname == "declarations":
+        m = f.modules[0]
+        n, v, c = var(m, "n"), var(m, "v"), var(m, "c")
+        expect(n.vartype == "integer" and n.parameter and str(n.initial) == "3", "n: integer, parameter = 3")
+        expect(v.vartype == "real" and str(v.kind) == "8" and sorted(a.lower() for a in v.attribs) == ["allocatable", "dimension(n)"],
+               "v: real(8), dimension(n), allocatable")
+        expect(c.vartype == "character" and str(c.strlen) == "10", "c: character(len=10)")
+    if tname == "declarations-2":
+        m = f.modules[0]
+        expect(var(m, "d").vartype == "double precision", "d: double precision")
+        p_ = var(m, "p")
+        expect(p_.vartype == "type" and str(p_.proto[0]).lower() == "t" and p_.points and str(p_.initial).replace(" ", "") == "null()",
+               "p: type(t), pointer => null()")
+        expect(str(var(m, "z").kind).lower() == "dp", "z: complex(kind=dp)")
+        s_ = var(m, "s")
+        expect(str(s_.strlen) == "*" and str(s_.kind).lower() == "ck" and s_.intent == "in", "s: character(len=*, kind=ck), intent(in)")
+    if tname == "procedures":
+        sub, fun = f.modules[0].subroutines[0], f.modules[0].functions[0]
+        a, b = sub.args
+        expect(a.intent == "in" and a.vartype == "integer", "a: integer, intent(in)")
+        expect(b.optional and b.vartype == "real" and str(b.kind) == "8", "b: real(8), optional")
+        expect("pure" in [x.lower() for x in fun.attribs] and fun.retvar.vartype == "real", "f: pure, result r real")
+    if tname == "types":
+        t = f.modules[0].types[0]
+        expect(str(t.extends).lower() == "base", "t extends base")
+        g = [b for b in t.boundprocs if str(b.name).lower() == "g"][0]
+        expect(g.generic and [str(x).lower() for x in g.bindings] == ["a", "b"], "generic g => a, b")
+        p1 = [b for b in t.boundprocs if str(b.name).lower() == "p1"][0]
+        expect([str(x).lower() for x in p1.bindings] == ["impl1"], "p1 => impl1")
+    return bad
+
+
+def _spelling_ob(tname):
+    @obligation("C01", f"O6.spelling-independence.{tname}", engine="SX(CV)", timeout=3000)
+    def ob(ctx):
+        import ford.sourceform as sf
+
+        ctx.encode_fn(sf.FortranContainer.__init__)
+        ctx.encode_fn(sf.line_to_variables)
+        ctx.encode_fn(sf.parse_type)
+        ctx.encode_fn(sf.FortranCodeUnit.process_attribs)
+        ctx.stubs.append("FortranReader replaced by the list of symbolic statements (reader is C02)")
+        slots = TEMPLATES[tname]
+        canonical = []
+        for s_ in slots:
+            canonical.extend(s_[0] if isinstance(s_[0], tuple) else [s_[0]])
+        cf = _parserh.parse_concrete(list(canonical))
+        csig = tree_signature(cf)
+        # anchor: the canonical spelling reports exactly what the text declares
+        inv = inventory(cf)
+        import json as _json
+        if _json.loads(_json.dumps(inv)) != EXPECTED[tname]:
+            ctx.report("canonical spelling: reported entities differ from the declared ones",
+                       {"program": canonical, "canonical": canonical, "ford": inv, "declared": EXPECTED[tname], "template": tname}, replay_inventory)
+        facts = _facts(tname, cf)
+        if facts:
+            ctx.report("canonical spelling: declared facts not reported",
+                       {"program": canonical, "canonical": canonical, "facts": facts, "template": tname}, replay_inventory)
+        nopt = 1
+        for s_ in slots:
+            nopt *= len(s_)
+        ctx.bounds.update({"template": tname, "slots": len(slots), "programs": nopt})
+
+        def h(E):
+            prog = []
+            for i, s_ in enumerate(slots):
+                cv = _CV.choice(E, f"s{i}", s_) if len(s_) > 1 else s_[0]
+                if isinstance(s_[0], tuple):
+                    prog.extend(cv[j] for j in range(len(s_[0])))
+                else:
+                    prog.append(cv)
+            h.prog = prog
+            try:
+                f = _parserh.parse(list(prog))
+            except Exception as e:  # noqa - FORD must not fail on valid input
+                E.reachable("raised")
+                E.require(False, f"parser raised {type(e).__name__} on a valid spelling")
+                return
+            E.reachable("parsed")
+            sig = tree_signature(f)
+            E.require(_choice.apply(lambda s_: s_ == csig, sig), "entity tree depends on the spelling")
+
+        E = _sym.Engine(ctx, max_paths=50000, incremental=True)
+        found = E.explore(h)
+        seen = set()
+        for label, m, pc in found:
+            if label in seen:
+                continue
+            seen.add(label)
+            ctx.report(label, {"program": _choice.value_in_model(m, h.prog), "canonical": canonical}, replay_spelling)
+        if E.reached.get("parsed"):
+            ctx.twins += 1
+        else:
+            ctx.inconclusive.append("vacuity: parser never completed")
+        ctx.sample({"template": tname, "canonical": canonical, "paths": E.paths})
+
+    ob.__doc__ = f"template '{tname}': every combination of equivalent spellings/letter cases yields the same entity tree as the canonical spelling"
+
+
+for _t in TEMPLATES:
+    _spelling_ob(_t)
